@@ -742,3 +742,69 @@ def extra_checks(ctx):
     ctx.notes.append(f'2-D correspondence: {STATS["compared_2d"]} cases compared ({STATS["cases_with_outlier_replacement_2d"]} with cells replaced by the outlier rule), {STATS["skipped_borderline_2d"]} skipped because a cell '
                      f'area coincides with the outlier bound; {STATS["interior_cells_checked"]} interior cells checked against their cell '
                      f'volume; {STATS["cells_replaced_by_outlier_rule"]} bounded cells replaced by the outlier rule were not held to it')
+
+
+# ---- added after seeded change C16-1: partially broadcast trajectories whose joint Voronoi set spans several dims --------
+def _gen_bcast_dense(rng, tier):
+    """shapes of (kz, ky, kx) over (k2, k1, k0) such that no k tensor is the only non-singleton one along any dim (no 1-D factor:
+    the whole weight comes from one joint Voronoi tessellation), but the sets of non-singleton tensors differ between the dims"""
+    out = []
+    layouts = [
+        # kz varies with k1 only, ky and kx with k1 and k0 (stack of tilted lines): 3-D point set
+        {'kz': (1, 'a', 1), 'ky': (1, 'a', 'b'), 'kx': (1, 'a', 'b')},
+        # kz varies with k2 and k1, ky with k1 and k0, kx with all
+        {'kz': ('c', 'a', 1), 'ky': (1, 'a', 'b'), 'kx': ('c', 'a', 'b')},
+        # 2-D: ky varies with k1 and k0, kx with k1 and k0 and k2 is a singleton; kz constant
+        {'kz': (1, 1, 1), 'ky': (1, 'a', 'b'), 'kx': (1, 'a', 'b')},
+        # (ky over (k2,k1), kx over (k2,k1,k0) would give kx a 1-D factor along k0 as well: that is open finding KF-C16-1, not generated here)
+    ]
+    for i in range(8 if tier == 'quick' else 120):
+        lay = layouts[i % len(layouts)]
+        a, b, cdim = rng.randint(3, 4), rng.randint(3, 4), rng.randint(2, 3)
+        sizes = {'a': a, 'b': b, 'c': cdim, 1: 1}
+        shapes = {k: [sizes[v] for v in lay[k]] for k in ('kz', 'ky', 'kx')}
+        out.append({'shapes': shapes, 'seed': rng.randrange(10 ** 6), 'layout_id': i % len(layouts)})
+    return out
+
+
+def _impl_bcast_dense(c):
+    import numpy as np
+    import torch
+    from mrpro.data import DcfData, KTrajectory
+    g = np.random.default_rng(c['seed'])
+    ks = {}
+    for name in ('kz', 'ky', 'kx'):
+        shp = c['shapes'][name]
+        n = int(np.prod(shp))
+        if n == 1:
+            ks[name] = torch.zeros(1, *shp)
+        else:
+            # distinct dyadic values on a jittered lattice (no coincident points, no degenerate cells)
+            vals = (np.arange(n) * 1.0 + g.integers(-3, 4, n) / 16.0) * (1.0 if name != 'kz' else 0.75)
+            g.shuffle(vals)
+            ks[name] = torch.tensor(vals.reshape(1, *shp), dtype=torch.float32)
+    tb = KTrajectory(ks['kz'], ks['ky'], ks['kx'], repeat_detection_tolerance=None)
+    wb = DcfData.from_traj_voronoi(tb).data
+    full = tb.broadcasted_shape
+    dense = [k.expand(*full).clone() for k in (ks['kz'], ks['ky'], ks['kx'])]
+    # keep exactly the same set of varying components (a constant component stays a singleton)
+    dense = [d if k.numel() > 1 else k for d, k in zip(dense, (ks['kz'], ks['ky'], ks['kx']))]
+    td = KTrajectory(*dense, repeat_detection_tolerance=None)
+    wd = DcfData.from_traj_voronoi(td).data
+    wb, wd = torch.broadcast_tensors(wb, wd)
+    return {'dev': float(((wb - wd).abs() / wd.abs().clamp_min(1e-9)).max()), 'pos': bool((wb > 0).all() and torch.isfinite(wb).all())}
+
+
+def _oracle_bcast_dense(c, o):
+    if isinstance(o, dict) and 'raises' in o:
+        return f'from_traj_voronoi raised {o} for shapes {c["shapes"]}'
+    if not o['pos']:
+        return f'weights not positive and finite for shapes {c["shapes"]}'
+    if o['dev'] > 1e-3:
+        return (f'the same samples given as partially broadcast tensors {c["shapes"]} and as dense tensors get different weights '
+                f'(relative deviation {o["dev"]:.3g}): the weight is not the volume of the Voronoi cell of the point set')
+    return None
+
+
+FAMILIES.append(Family('broadcast_vs_dense', _gen_bcast_dense, _impl_bcast_dense, None, '', None, _oracle_bcast_dense,
+                       descr=lambda c: {'layout_id': c['layout_id']}, theorem='(implementation-level: cell volumes do not depend on the representation)'))
